@@ -44,6 +44,8 @@ var defsList = []defsT{
 	{Name: "d4", Shape: "flat-list", X: `[3, 1, 2]`, topK: 'l'},
 	{Name: "d5", Shape: "flat-dict", X: `{"a": 1}`, topK: 'd'},
 	{Name: "d6", Shape: "list-of-list-of-lists", X: `[[[3, 1, 2]]]`, inner: `X[0][0]`, topK: 'l', innerK: 'l'},
+	// a flat list whose backing array has spare capacity (built by appending): `X + [...]` must still not write into it
+	{Name: "d7", Shape: "flat-list-with-spare-capacity", X: `[x for x in [3, 1, 2, 5, 6] if x < 5]`, topK: 'l'},
 }
 
 func (d defsT) text() string {
@@ -82,6 +84,8 @@ func listMutators(where, e string) []mutator {
 		{Name: p + "reversed", Code: "y = reversed(" + e + ")\n"},
 		{Name: p + "augassign-rebinding", Code: "y = " + e + "\ny += [7]\n"},
 		{Name: p + "add-empty-then-index-assign", Code: "y = " + e + " + []\ny[0] = 9\n"},
+		{Name: p + "add-nonempty-keep-result-7", Code: "y = " + e + " + [7]\n"},
+		{Name: p + "add-nonempty-keep-result-8", Code: "y = " + e + " + [8]\n"},
 		{Name: p + "full-slice-then-index-assign", Code: "y = " + e + "[:]\ny[0] = 9\n"},
 		{Name: p + "prefix-slice-then-add", Code: "y = " + e + "[:1]\nz = y + [9]\n"},
 		{Name: p + "repeat-1-then-index-assign", Code: "y = " + e + " * 1\ny[0] = 9\n"},
